@@ -6,7 +6,7 @@ import time
 
 HERE = os.path.dirname(os.path.dirname(os.path.abspath(__file__)))
 
-QUICK_RUNS = {"C09": 768, "C11": 768, "C10": 192}
+QUICK_RUNS = {"C09": 768, "C11": 768, "C10": 256}
 THOROUGH_BUDGET_S = 1800
 
 LEVEL_RULE = {
@@ -68,7 +68,9 @@ def write_evidence(prop, tier, seed, agg, violations, wall, extra=None):
         "distinct_states": {"measure": "distinct abstract states (see DESIGN 2.8)", "count": len(agg.states)},
         "reach_probes": agg.probes,
         "components": COMPONENTS,
-        "grid_cells_covered": {"measure": "distinct (tissue, ne, replace_short_edges, retained references) cells of the systematic 'grid' configuration",
+        "grid_cells_covered": {"measure": ("distinct (series, first option set, second option set, variant) cells of the systematic 'pairs' configuration"
+                                           if prop == "C10" else
+                                           "distinct (tissue, ne, replace_short_edges, retained references) cells of the systematic 'grid' configuration"),
                                "count": len(agg.grid)},
         "extra": agg.extra,
     }
